@@ -33,7 +33,7 @@ def bounded_task():
             r.replay, r.witness = hit, hit["input"]
         kc = c06.known_case()
         k = OR(id=f"{PROP}.Bd.pipeline.two_local_names_for_one_entity", status=REFUTED if kc else PROVED, kind="Bd", role="bounded", target="ford.sourceform.FortranModule.get_used_entities (parse half)",
-               desc="use a, only: p => t, q => t : both local names denote a's t", bound="1 case", cases=1, backend="enumeration", known="C06-two-local-names")
+               desc="use a, only: p => t, q => t : both local names denote a's t", bound="1 case", cases=1, backend="enumeration")
         if kc:
             k.replay, k.witness = kc, kc["input"]
         return [r, k]
